@@ -15,6 +15,7 @@
      is an oracle input [choice]; the model checks that it is admissible and reports that in [r_ok]. *)
 From Coq Require Import List NArith Arith Bool.
 From Base Require Import Bytes.
+From Fw Require Import GenConsts.
 Import ListNotations.
 Open Scope N_scope.
 
@@ -161,12 +162,13 @@ Fixpoint put_in (l : list inrec) (r : inrec) : list inrec :=
   | x :: t => if ir_face x =? ir_face r then r :: t else x :: put_in t r
   end.
 
-Definition default_lifetime : N := 4000 * 1000000.
+(* the lifetime assumed for an Interest without InterestLifetime: GenConsts.default_lifetime_in (InsertInRecord) and
+   default_lifetime_out (InsertOutRecord), translated from the source *)
 
 (* basePitEntry.InsertInRecord: the record of the face holds the nonce, times and PIT token of its latest Interest *)
 Definition insert_inrec (now : N) (f nonce : N) (life : option N) (tok : bytes) (e : pite)
   : pite * bool * N :=
-  let lt := match life with Some l => l | None => default_lifetime end in
+  let lt := match life with Some l => l | None => default_lifetime_in end in
   match get_in (pe_ins e) f with
   | None => (set_ins e (pe_ins e ++ [{| ir_face := f; ir_nonce := nonce; ir_at := now; ir_exp := now + lt; ir_tok := tok |}]),
              false, 0)
@@ -177,7 +179,7 @@ Definition insert_inrec (now : N) (f nonce : N) (life : option N) (tok : bytes) 
 
 (* nameTreePitEntry.InsertOutRecord *)
 Definition insert_outrec (now : N) (f nonce : N) (life : option N) (n : name) (e : pite) : pite :=
-  let lt := match life with Some l => l | None => default_lifetime end in
+  let lt := match life with Some l => l | None => default_lifetime_out end in
   set_outs e (put_out (pe_outs e) {| or_face := f; or_nonce := nonce; or_at := now; or_exp := now + lt; or_name := n |}).
 
 (* UpdateExpirationTimer: now, or the latest expiry of any in- or out-record if later *)
@@ -343,9 +345,9 @@ Definition mk_interest_out (nh : N) (n : name) (hop : option N) (tok : bytes) : 
   {| o_face := nh; o_kind := KInterest; o_name := n; o_hop := hop; o_tok := tok |}.
 
 (* suppression test of both strategies *)
-Definition suppression : N := 500 * 1000000.
-Definition suppressed (now nonce : N) (e : pite) : bool :=
-  existsb (fun o => negb (or_nonce o =? nonce) && (now <? or_at o + suppression)) (pe_outs e).
+Definition suppression (strategy : N) : N := if strategy =? 1 then multicast_suppression else bestroute_suppression.
+Definition suppressed (strategy now nonce : N) (e : pite) : bool :=
+  existsb (fun o => negb (or_nonce o =? nonce) && (now <? or_at o + suppression strategy)) (pe_outs e).
 
 Definition min_cost (l : list nexthop) : N :=
   match l with [] => 0 | h :: r => fold_left (fun m x => N.min m (snd x)) r (snd h) end.
@@ -369,7 +371,7 @@ Definition strategy_interest (strategy : N) (fs : list face) (tidv now inface no
   match allowed with
   | [] => (e, [], true)
   | _ =>
-    if suppressed now nonce e then (e, [], true)
+    if suppressed strategy now nonce e then (e, [], true)
     else if strategy =? 1 then let '(e', os) := send_all fs tidv now inface nonce life n hop allowed e in (e', os, true)
     else
       (* best-route: after the (unstable) sort by cost the first next hop that passes the guards is used *)
@@ -509,7 +511,7 @@ Definition step_interest (s : fw) (now : N) (i : interest) (ch : choice) : resul
 (* ------------------------------------------------------------------------------------------------ Data pipeline *)
 (* a 6-byte PIT token is "for us": thread id (2 bytes) and entry token (4 bytes) *)
 Definition data_token (tok : bytes) : option (N * N) :=
-  if (N.of_nat (length tok) =? 6) then Some (be_val (firstn 2 tok), be_val (skipn 2 tok)) else None.
+  if (N.of_nat (length tok) =? token_len) then Some (be_val (firstn 2 tok), be_val (skipn 2 tok)) else None.
 
 Definition name_rule (e : pite) (dn : name) (k : nat) : bool :=
   name_eqb (pe_name e) (firstn k dn) && (pe_cbp e || (k =? length dn)%nat).
@@ -603,7 +605,7 @@ Definition step (s : fw) (e : ev) (ch : choice) : result :=
   | EInterest now i => step_interest s now i ch
   | EData now d => step_data s now d
   | ETick now => step_tick s now ch
-  | ESweep now => res (with_dnl s (dnl_sweep 100 now (dnl s))) [] true DNone
+  | ESweep now => res (with_dnl s (dnl_sweep (N.to_nat dnl_sweep_limit) now (dnl s))) [] true DNone
   | ESleep _ => res s [] true DNone
   | EFaceAdd f => res (with_faces s (add_face (faces s) f)) [] true DNone
   | EFaceDel id => res (with_faces s (del_face (faces s) id)) [] true DNone
